@@ -36,6 +36,17 @@ import (
 //
 // Note: it does not check for the invalid UTF-8 characters.
 func Valid(data []byte) (ok bool, start int) {
+	return valid(data, 0)
+}
+
+// ValidStrict is Valid with the contents of string literals checked as well
+// (escape sequences, no raw control characters, terminated): what the output of a
+// json.Marshaler has to satisfy before it is copied into the result.
+func ValidStrict(data []byte) (ok bool, start int) {
+	return valid(data, types.F_VALIDATE_STRING)
+}
+
+func valid(data []byte, flags uint64) (ok bool, start int) {
 	n := len(data)
 	if n == 0 {
 		return false, -1
@@ -43,7 +54,7 @@ func Valid(data []byte) (ok bool, start int) {
 	s := rt.Mem2Str(data)
 	p := 0
 	m := types.NewStateMachine()
-	ret := native.ValidateOne(&s, &p, m, 0)
+	ret := native.ValidateOne(&s, &p, m, flags)
 	types.FreeStateMachine(m)
 
 	if ret < 0 {
